@@ -164,7 +164,7 @@ func runC11(rep *TReport, raw json.RawMessage) {
 	}
 	// the pushed-authorization endpoint takes the same redirect_uri: it may accept it only if the authorization
 	// endpoint may redirect there, and a plain-http target only on loopback / localhost hosts
-	if r.Mode == "default" && r.Err == "none" && r.RType == "code" {
+	if r.Mode == "default" && r.Err == "none" {
 		preq := postReq("/par")
 		pf := url.Values{}
 		for k, v := range q {
